@@ -5,21 +5,24 @@
 set -u
 ID="${1:?property id}"
 TIER="${2:-${VERIF_TIER:-quick}}"
-cd /verif/harness || exit 2
+ROOT="$(cd "$(dirname "$0")" && pwd)"
+export VERIF_ROOT="$ROOT"
+export CARGO_TARGET_DIR="$ROOT/target"
+cd "$ROOT/harness" || exit 2
 export CARGO_NET_OFFLINE=true
 export TZ=UTC
 export MALLOC_MMAP_THRESHOLD_=1073741824 MALLOC_TRIM_THRESHOLD_=4294967295
-LOG=$(mktemp /verif/target/build-XXXXXX.log 2>/dev/null || mktemp)
-mkdir -p /verif/target
-if ! flock /verif/target/.build.lock cargo build --profile verif >"$LOG" 2>&1; then
+mkdir -p "$ROOT/target"
+LOG=$(mktemp "$ROOT/target/build-XXXXXX.log" 2>/dev/null || mktemp)
+if ! flock $ROOT/target/.build.lock cargo build --profile verif >"$LOG" 2>&1; then
   cat "$LOG" >&2; rm -f "$LOG"
   echo "INFRA: harness build failed" >&2
   exit 2
 fi
 rm -f "$LOG"
 if [ "$ID" = "C22" ]; then
-  if ! (cd /repo && flock /verif/target/.build.lock cargo build -p numbat-cli --offline --target-dir /verif/target-cli >/verif/target/cli-build.log 2>&1); then
-    cat /verif/target/cli-build.log >&2
+  if ! (cd /repo && flock $ROOT/target/.build.lock cargo build -p numbat-cli --offline --target-dir $ROOT/target-cli >$ROOT/target/cli-build.log 2>&1); then
+    cat $ROOT/target/cli-build.log >&2
     echo "INFRA: numbat-cli build failed" >&2
     exit 2
   fi
@@ -28,7 +31,7 @@ fi
 # both are infrastructure trouble (exit 2), never a violation
 ulimit -v 41943040 2>/dev/null
 LIMIT=1800; [ "$TIER" = "thorough" ] && LIMIT=28800
-timeout --signal=KILL "$LIMIT" /verif/target/verif/nbv check "$ID" --tier "$TIER"
+timeout --signal=KILL "$LIMIT" $ROOT/target/verif/nbv check "$ID" --tier "$TIER"
 rc=$?
 case $rc in
   0|1) exit $rc ;;
